@@ -299,6 +299,11 @@ class Encoder:
         else:
             if nbytes_w > nbytes:
                 self.e.cons.append(z3.ULT(x, BV(1 << (nbytes * 8), w)))
+            if getattr(self.b, 'flag_declared_only', False):
+                allbits = 0
+                for f in d['fields']:
+                    allbits |= f['value']
+                self.e.cons.append((x & BV(~allbits & ((1 << w) - 1), w)) == 0)
         bs = le_bytes(x, nbytes_w)
         if be:
             bs = list(reversed(bs))
